@@ -113,7 +113,9 @@ class LineReplayer:
             # the call returned normally
             exp_obs = obs_of_spec(row["post"]) if exp == "ok" else None
             if exp_obs is not None and real == exp_obs:
-                dirty = real != pre_obs
+                # (a call may change only properties outside the projection: replace_nodes_and_values hands over
+                # const_value / type / shape)
+                dirty = real != pre_obs or u.extra_snapshot() != extra_pre
                 continue
             bad = check_invariants(real)
             if bad:
